@@ -63,7 +63,8 @@ MANIFEST = {
                   "C03_delegate_sound_ext / C03_delegating_pair_agree, proved once for all extended reader programs: ReadUintN/IntN, ReadBytes, "
                   "ReadFixedLengthString with any count, zero-terminated strings with a count below 2^62, SkipBytes, AccError, positions relative "
                   "to the entry; buffers below 2^61 bytes), or delegating and named: the visual sample entries (C03_vse_pair_agree_canonical), "
-                  "trep (C03_counted_pairs_agree_canonical), wvtt (C03_entry_pairs_agree_canonical), or EXPLORED: esds evte meta sgpd stpp; "
+                  "trep (C03_counted_pairs_agree_canonical), wvtt (C03_entry_pairs_agree_canonical), evte and stpp (C03_xentry_pairs_agree_canonical: a prefix "
+                  "that is a local reader program, then children while payload bytes remain), or EXPLORED: esds meta sgpd; "
                   "(ii) a CONTAINER TWIN - the same text around DecodeContainerChildren / ...SR (20 types: the container kind of "
                   "C03_decode_agree_canonical; for edts sinf stbl, whose SR decoder returns sr.AccError() instead of nil, C03_twin_accerr_canonical: "
                   "on a canonical box at any position of the buffer the test never fires) or moov/moof (reader path reads the body and runs the "
@@ -75,7 +76,8 @@ MANIFEST = {
                   "C03_std_canon_leaf), emeb vtte PURE TWINS (same text, reader untouched); (iv) SEPARATELY WRITTEN and named in the theorem, with "
                   "BOTH decoders modelled: trun senc stsd mfhd tfdt, dref (C03_counted_pairs_agree_canonical), the audio sample entries mp4a enca "
                   "ac-3 ec-3 (C03_entry_pairs_agree_canonical: the reader path runs the READER-path box decoder on the rest of the body), or "
-                  "EXPLORED: vttc. Explored-only decoder keys: 6 (were 22): esds evte meta sgpd stpp vttc. "
+                  "vttc, whose SR decoder only initialises Children with an empty slice where the reader path leaves it nil, is a container twin (nil == empty). Explored-only decoder keys: 3 (were 22): esds (descriptor parsing with absolute positions), meta (LookAhead), sgpd (entry decoders "
+                  "behind a function table). "
                   "A reader-path decoder rewritten by hand, an SR decoder that "
                   "starts using GetPos / RemainingBytes / LookAhead ..., a guard present on one path only, or a type registered with another "
                   "SR decoder leaves its class: the theorem fails and the check names the box type, the function and the reason. ENCODERS "
@@ -169,7 +171,7 @@ EXPECT_DEC = {
     "stsd": ("DecodeStsd", "separate", False), "ac-3": ("DecodeAudioSampleEntry", "separate", False), "mfhd": ("DecodeMfhd", "separate", True), "tfdt": ("DecodeTfdt", "separate", True),
     "free": ("DecodeFree", "raw-body", True), "skip": ("DecodeFree", "raw-body", True), "cdat": ("DecodeCdat", "raw-body", True),
     "vtte": ("DecodeVtte", "pure-twin", True), "emeb": ("DecodeEmeb", "pure-twin", True), "avcC": ("DecodeAvcC", "body-fn", True), "dref": ("DecodeDref", "separate", False),
-    "mp4a": ("DecodeAudioSampleEntry", "separate", False), "vttc": ("DecodeVttc", "separate", False), "styp": ("DecodeStyp", "raw-body", True),
+    "mp4a": ("DecodeAudioSampleEntry", "separate", False), "vttc": ("DecodeVttc", "container-twin", False), "styp": ("DecodeStyp", "raw-body", True),
     "dac3": ("DecodeDac3", "body-fn+accerr", True), "hvcC": ("DecodeHvcC", "body-fn", True), "dec3": ("DecodeDec3", "body-fn+accerr", True),
     "av1C": ("DecodeAv1C", "body-fn", True),
 }
@@ -251,6 +253,8 @@ MUTATIONS = [
     ("senc-encode-other-prelude", "mp4/senc.go", "\ts.setSubSamplesUsedFlag()\n\tsw := bits.NewFixedSliceWriter(int(s.Size()))",
      "\ts.readButNotParsed = false\n\tsw := bits.NewFixedSliceWriter(int(s.Size()))",
      "enc", "SencBox", ("separate", None)),
+    ("vttc-sr-nonempty-children", "mp4/wvtt.go", "\tb := VttcBox{Children: make([]Box, 0, len(children))}", "\tb := VttcBox{Children: make([]Box, 1, len(children)+1)}",
+     "dec", "vttc", ("separate", None)),
     ("btrt-encode-by-hand", "mp4/btrt.go", "\tsw := bits.NewFixedSliceWriter(int(b.Size()))\n\terr := b.EncodeSW(sw)",
      "\tsw := bits.NewFixedSliceWriter(int(b.Size()) + 0)\n\terr := b.EncodeSW(sw)",
      "enc", "BtrtBox", ("separate", None)),
@@ -399,7 +403,7 @@ def run_mutations(ctx, exe, decs0, encs0):
     base_enc = {e["type"]: e["class"] for e in encs0}
     pre = {"btrt": "delegating", "tfhd": "delegating", "stts": "delegating", "mvhd": "delegating", "ftyp": "delegating", "CoLL": "delegating",
            "colr": "delegating", "kind": "delegating", "emsg": "delegating", "dac3": "body-fn+accerr", "dec3": "body-fn+accerr", "avcC": "body-fn", "hvcC": "body-fn",
-           "styp": "raw-body", "SencBox": "prelude", "free": "raw-body", "emeb": "pure-twin", "dinf": "container-twin", "moov": "container-body",
+           "styp": "raw-body", "vttc": "container-twin", "SencBox": "prelude", "free": "raw-body", "emeb": "pure-twin", "dinf": "container-twin", "moov": "container-body",
            "BtrtBox": "delegating", "DinfBox": "container", "MoofBox": "twin"}
     base = os.path.join(common.BUILD, "c03-mut-%d" % os.getpid())
     res = {"applied": 0, "detected": 0, "skipped": 0, "results": [], "missed": []}
@@ -524,7 +528,7 @@ def run(ctx):
                               "to an stsd / sample entry and 8 mdat boxes: model encoders vs Encode/EncodeSW bytes; P: mfhd, tfdt (v0/v1), tfhd (all 32 "
                               "combinations of the optional-field flags) with the same variants: fields, Size, consumed, AccError of both decoders vs "
                               "the reader programs; C: dref, trep, wvtt, mp4a/enca/ac-3/ec-3 with 0..3 standard-leaf children x the same variants (lying sizes, "
-                              "truncations, 16-byte headers, lying entry counts, boxes shorter than the fixed part) vs dref_r/sr, trep_r/sr, wvtt_r/sr, ase_r/sr, and "
+                              "truncations, 16-byte headers, lying entry counts, boxes shorter than the fixed part) vs dref_r/sr, trep_r/sr, wvtt_r/sr, evte_r/sr, stpp_r/sr, ase_r/sr, and "
                               "their encoders (M) vs pfx_enc_w/sw; Y: synthesized files [ftyp moov{traks clear / encrypted with tenc IV 0/8/16 / without tenc / without tkhd / "
                               "without entry}] [free] (moof{1..4 trafs} mdat){1,2}, every traf with a track id or no tfhd and no senc / zero-sample senc / "
                               "unparsed senc that parses (8- or 16-byte IVs, sub-samples) / that does not / PIFF senc / saio matching, mismatching, empty / "
